@@ -265,3 +265,78 @@ def selfcheck(seed=0, n=20):
                 raise AssertionError("pow derivative disagrees with finite differences")
             cnt += 1
     return cnt
+
+
+# ----------------------------------------------------------------------------- polynomial identities (Groebner back end)
+
+
+def _to_sympy(t, table):
+    import sympy as sp
+
+    if z3.is_rational_value(t):
+        return sp.Rational(t.numerator_as_long(), t.denominator_as_long())
+    if z3.is_int_value(t):
+        return sp.Integer(t.as_long())
+    k = t.decl().kind()
+    ch = t.children()
+    if k == z3.Z3_OP_ADD:
+        return sp.Add(*[_to_sympy(c, table) for c in ch])
+    if k == z3.Z3_OP_SUB:
+        r = _to_sympy(ch[0], table)
+        for c in ch[1:]:
+            r = r - _to_sympy(c, table)
+        return r
+    if k == z3.Z3_OP_UMINUS:
+        return -_to_sympy(ch[0], table)
+    if k == z3.Z3_OP_MUL:
+        return sp.Mul(*[_to_sympy(c, table) for c in ch])
+    if k == z3.Z3_OP_DIV:
+        return _to_sympy(ch[0], table) / _to_sympy(ch[1], table)
+    if k == z3.Z3_OP_TO_REAL:
+        return _to_sympy(ch[0], table)
+    if k == z3.Z3_OP_POWER and (z3.is_int_value(ch[1]) or (z3.is_rational_value(ch[1]) and ch[1].denominator_as_long() == 1)):
+        return _to_sympy(ch[0], table) ** int(ch[1].numerator_as_long() if z3.is_rational_value(ch[1]) else ch[1].as_long())
+    # anything else (constants, applications of uninterpreted functions, ite, ...) is an indeterminate, keyed structurally
+    key = t.sexpr()
+    if key not in table:
+        table[key] = sp.Symbol(f"g{len(table)}", real=True)
+    return table[key]
+
+
+def groebner_identity(lhs, rhs, relations, timeout_s=60):
+    """Decide lhs == rhs as an identity of rational functions modulo the polynomial relations `a == b`
+    (ideal membership of the numerator, sympy Groebner basis).  Sound when all denominators are non-zero
+    (the caller's requires).  Returns 'discharged' or 'undecided' (never 'refuted')."""
+    import sympy as sp
+
+    table: dict = {}
+    try:
+        dens = []
+        num, den = sp.fraction(sp.together(_to_sympy(lhs, table) - _to_sympy(rhs, table)))
+        dens.append(den)
+        rels = []
+        for a, b in relations:
+            r, d = sp.fraction(sp.together(_to_sympy(a, table) - _to_sympy(b, table)))
+            dens.append(d)
+            r = sp.expand(r)
+            if r != 0:
+                rels.append(r)
+        num = sp.expand(num)
+        if num == 0:
+            return "discharged"
+        # every denominator is non-zero (caller's requires): adjoin an inverse w_f of each denominator factor f
+        # (f * w_f = 1), so that multiples f^k * p of a goal p in the ideal give p itself (Rabinowitsch trick)
+        seen = set()
+        for d in dens:
+            for f, _m in sp.factor_list(sp.expand(d))[1]:
+                if f.free_symbols and f not in seen:
+                    seen.add(f)
+                    rels.append(sp.expand(f * sp.Symbol(f"w{len(seen)}", real=True) - 1))
+        gens = sorted(set().union(*[e.free_symbols for e in rels + [num]]), key=lambda s: s.name)
+        if not rels:
+            return "undecided"
+        G = sp.groebner(rels, *gens, order="grevlex")
+        _, rem = G.reduce(num)
+        return "discharged" if rem == 0 else "undecided"
+    except Exception:
+        return "undecided"
